@@ -30,6 +30,7 @@ class MolEditAdapter:
         self.keep = []     # keep objects alive so id() stays unique
         self.nfresh = 0
         self.nap = 0
+        self.view = None
         # identity tables (overridden by the trace driver for file-loaded molecules)
         self.idx, self.elem, self.label = dict(IDX), dict(ELEM), dict(LABEL)
         self.coordtab = {t: given_coord(t) for t in IDX}
@@ -96,7 +97,14 @@ class MolEditAdapter:
                 mol.add_implicit_hydrogens()
             elif a == "sub_translate":
                 mol.substructure([self.obj[t] for t in act["S"]]).translate(SHIFT)
+            elif a == "make_view":
+                self.view = mol.substructure([self.obj[t] for t in act["S"]])
+                _ = self.view.coords, self.view.parent_atom_indices          # the view is used once, then kept
+            elif a == "view_translate":
+                v, self.view = self.view, None
+                v.translate(SHIFT)
             elif a == "clone":
+                self.view = None
                 new = self.cls(mol)
                 for old, nw in zip(mol.atoms, new.atoms):
                     t = self.tag.get(id(old))
